@@ -829,6 +829,22 @@ type instr struct {
 	// captured: local variables that a function literal refers to from outside
 	// its own body (they may outlive the call that declared them)
 	captured map[types.Object]bool
+	// keepImport: selector expressions (time.Sleep, runtime.Gosched) whose last
+	// use may have been rewritten; a blank use keeps the import alive
+	keepImport map[string]bool
+}
+
+// importName returns the name under which this file imports path ("" if it does not).
+func (in *instr) importName(path string) string {
+	for _, im := range in.astFile.Imports {
+		if p, _ := strconv.Unquote(im.Path.Value); p == path {
+			if im.Name != nil {
+				return im.Name.Name
+			}
+			return path[strings.LastIndex(path, "/")+1:]
+		}
+	}
+	return "\x00none"
 }
 
 func (in *instr) newSite(pos token.Pos, kind, fn string) uint32 {
@@ -965,6 +981,17 @@ func (in *instr) walk(n ast.Node, fn string) {
 	ast.Inspect(n, func(x ast.Node) bool {
 		switch t := x.(type) {
 		case *ast.CallExpr:
+			// time.Sleep(d) -> simrt.Sleep(d), runtime.Gosched() -> simrt.Gosched():
+			// a task that polls gives the token away instead of burning steps or
+			// real time
+			if sel, ok := t.Fun.(*ast.SelectorExpr); ok {
+				if id, ok := sel.X.(*ast.Ident); ok && id.Obj == nil {
+					if (id.Name == in.importName("time") && sel.Sel.Name == "Sleep") || (id.Name == in.importName("runtime") && sel.Sel.Name == "Gosched") {
+						in.replace(id.Pos(), len(id.Name), "simrt__")
+						in.keepImport[id.Name+"."+sel.Sel.Name] = true
+					}
+				}
+			}
 			// sync.OnceValue(f), sync.OnceValues(f), sync.OnceFunc(f): whatever f
 			// builds lives as long as the returned function value, which cannot be
 			// walked. f announces itself when it runs (simrt__.LazyInit); if that
@@ -1128,7 +1155,7 @@ func instrumentFile(p *pkgInfo, name string, f *ast.File, full bool) string {
 	if err != nil {
 		die("%v", err)
 	}
-	in := &instr{p: p, file: name, full: full, tf: fset.File(f.Pos()), astFile: f, src: src}
+	in := &instr{p: p, file: name, full: full, tf: fset.File(f.Pos()), astFile: f, src: src, keepImport: map[string]bool{}}
 	in.findCaptured(f)
 	for _, d := range f.Decls {
 		if gd, ok := d.(*ast.GenDecl); ok && gd.Tok == token.VAR {
@@ -1172,6 +1199,9 @@ func instrumentFile(p *pkgInfo, name string, f *ast.File, full bool) string {
 		out = append(out[:e.off], append([]byte(e.text), out[e.off+e.del:]...)...)
 	}
 	out = append(out, []byte("\nvar _ = simrt__.Yield\n")...)
+	for k := range in.keepImport {
+		out = append(out, []byte("var _ = "+k+"\n")...)
+	}
 	if _, err := parser.ParseFile(token.NewFileSet(), name, out, 0); err != nil {
 		os.WriteFile("/verif/.work/bad.go", out, 0o644)
 		die("instrumented %s does not parse: %v", name, err)
@@ -1197,8 +1227,36 @@ const simrtSrc = `// Package simrt is injected by the verification harness throu
 // It does not exist in the repository.
 package simrt
 
+import (
+	"runtime"
+	"time"
+)
+
 // Hook, when non-nil, is called at every instrumented yield point.
 var Hook func(site uint32)
+
+// Pause, when non-nil, replaces time.Sleep(d) and runtime.Gosched() (d = 0) of
+// the code under test: the caller offers the processor to the other tasks
+// (simulated time: nobody waits for the real clock while another task can run).
+var Pause func(d int64)
+
+// Sleep stands in for time.Sleep in instrumented code.
+func Sleep(d time.Duration) {
+	if p := Pause; p != nil {
+		p(int64(d))
+		return
+	}
+	time.Sleep(d)
+}
+
+// Gosched stands in for runtime.Gosched in instrumented code.
+func Gosched() {
+	if p := Pause; p != nil {
+		p(0)
+		return
+	}
+	runtime.Gosched()
+}
 
 // Spawn, when non-nil, receives every goroutine the library starts.
 var Spawn func(f func())
@@ -1276,6 +1334,9 @@ func VerifLazy() []string { return simrt__.Lazies() }
 
 // VerifSetYieldHook installs the scheduler callback (nil uninstalls).
 func VerifSetYieldHook(f func(uint32)) { simrt__.Hook = f }
+
+// VerifSetPauseHook installs the time.Sleep / runtime.Gosched callback (nil uninstalls).
+func VerifSetPauseHook(f func(int64)) { simrt__.Pause = f }
 
 // VerifSetSpawnHook installs the goroutine-spawn callback (nil uninstalls).
 func VerifSetSpawnHook(f func(func())) { simrt__.Spawn = f }
